@@ -774,8 +774,14 @@ def _run_chunk(specs):
     return out
 
 
-def _bg_chunk(specs, q):
-    q.put(_run_chunk(specs))
+def _bg_chunk(specs, q, lock_wait_s):
+    try:
+        from harness.c09_pam import run_real_cases
+        q.put(run_real_cases(specs, lock_wait_s))
+    except Exception:
+        import traceback
+        q.put([{'spec': specs[0], 'crash': traceback.format_exc()[-1500:], 'viol': [],
+                'lines': [], 'expect': [], 'stats': {}}])
 
 
 # ======================================================================
@@ -788,7 +794,12 @@ PARAMS = [
 
 
 def gen_specs(rng, thorough):
+    import os
     specs = []
+    scale = float(os.environ.get('C09_SCALE', '1'))     # development only
+
+    def cnt(x):
+        return max(1, int(x * scale))
 
     def mk(n, N, edges, **kw):
         s = {'seed': rng.randrange(1 << 30), 'n': n, 'N': N, 'edges': edges,
@@ -830,14 +841,14 @@ def gen_specs(rng, thorough):
     for N in (2, 3, 4, 5):
         gs = all_connected_graphs(N)
         if N == 5 and not thorough:
-            gs = [gs[i] for i in sorted(rng.sample(range(len(gs)), 120))]
+            gs = [gs[i] for i in sorted(rng.sample(range(len(gs)), cnt(120)))]
         reps = 3 if (thorough or N < 5) else 1
         for es in gs:
             for _ in range(reps):
                 n = rng.randint(2, N)
                 specs.append(mk(n, N, es))
     # random connected graphs up to 10 vertices, machines larger than the circuit
-    for _ in range(6000 if thorough else 280):
+    for _ in range(cnt(6000 if thorough else 280)):
         N = rng.randint(3, 10)
         n = rng.randint(2, min(N, 8))
         specs.append(mk(n, N, random_connected_graph(rng, N),
@@ -851,7 +862,7 @@ def gen_specs(rng, thorough):
         s['im0'], s['fm0'] = list(range(n)), list(range(n))
         specs.append(s)
     # permutation-aware mapping, fabricated exact permutation data
-    for _ in range(1500 if thorough else 70):
+    for _ in range(cnt(1500 if thorough else 70)):
         N = rng.randint(3, 7)
         n = rng.randint(2, min(N, 5))
         s = mk(n, N, random_connected_graph(rng, N), nops=rng.randint(3, 14),
@@ -999,7 +1010,7 @@ def run(ck: Check):
     bg = None
     if serial:      # these start their own bqskit runtime; run them beside the pool
         q = ctx.Queue()
-        bg = ctx.Process(target=_bg_chunk, args=(serial, q))
+        bg = ctx.Process(target=_bg_chunk, args=(serial, q, 600 if thorough else 45))
         bg.start()
     if len(par) <= 4:
         results = _run_chunk(par)
@@ -1009,7 +1020,7 @@ def run(ck: Check):
     ck.coverage['phase_s']['pool'] = round(time.time() - t0, 1)
     if bg is not None:
         try:
-            results += q.get(timeout=200 * len(serial) + 60)
+            results += q.get(timeout=(600 if thorough else 45) + 200 + 70 * len(serial))
         except Exception:
             results += [{'spec': sp, 'skipped': 'bqskit runtime case timed out', 'viol': [],
                          'lines': [], 'expect': [], 'stats': {}} for sp in serial]
